@@ -19,6 +19,18 @@ PROPS = {
                      "impl Default for Stack<T> (delegates to new)"],
     ),
 }
+PROPS["C16"] = dict(
+    title="Unicode property rules are consistent for every code point",
+    verus_units=[], kani=["unicode"], searcher="unicode",
+    design_ref="DESIGN.md section 5, C16",
+    technique="contract-based verification with Kani/CBMC: loop-free harnesses over a fully symbolic `char` on the real pest::unicode functions (complete over all 1,112,064 scalar values)",
+    level_text="Complete proof over the finite domain of all Unicode scalar values: each clause (exactly one two-letter general category; each grouped category equals the union of its members; scripts pairwise disjoint) is one loop-free CBMC query with a symbolic char through the real ucd_trie lookup on the real generated tables. Quick tier: partition + 8 unions; thorough adds the 163-script disjointness harness.",
+    level_note="Trusted: Kani 0.68/CBMC/CaDiCaL; the grouping table (UAX#44) in vx/gen_unicode.py is the specification. Not covered: by_name/VM/generator/validator name dispatch (string tables, Box<dyn Fn>) - the name clause of C16 is NOT decided.",
+    assumptions=["Kani 0.68 / CBMC 6.11 / CaDiCaL are sound on loop-free code; rustc MIR semantics as modelled by Kani",
+                 "the member lists of the eight grouped categories are taken from UAX #44 (specification side), written in vx/gen_unicode.py"],
+    not_covered=["name clause: unicode::by_name (to_uppercase + Box<dyn Fn>), the VM's and the generator's built-in dispatch and the validator's BUILTINS table are string tables outside both tools' reach here; not decided",
+                 "script disjointness runs in the thorough tier only (about 4 minutes)"],
+)
 
 NOT_APPLICABLE = {
     "C01": "conformance to PEG semantics is a refinement proof of the VM interpreter + optimizer + meta parser against a formal semantics for all grammars; no function-level contract within reach decides it (its leaf obligations are C03/C04)",
@@ -35,7 +47,6 @@ NOT_APPLICABLE = {
     "C13": "Pratt parsing loop is generic over Peekable<I> and Box<dyn FnMut>; not in the Verus subset, Kani timed out at sequence length 3",
     "C14": "equality of a checked-in generated file with regenerated output: regeneration/differential check, not a contract",
     "C15": "claimed in DESIGN.md; check not built yet in this commit",
-    "C16": "claimed in DESIGN.md; check not built yet in this commit",
     "C17": "thread-interleaving property; Kani has no threads, Verus would verify a rewritten model",
     "C18": "language equality with RFC 8259 for a derive-generated parser; needs fixpoint contracts for combinators plus an RFC formalisation, beyond this effort",
 }
